@@ -699,18 +699,35 @@ pub fn test_cli_dicts(c: &CliDictCase, ctx: &mut CaseCtx) -> Result<(), String> 
             .output()
             .map_err(|e| LspError::Protocol(format!("cannot run {cli}: {e}")))?;
         let printed = format!("{}{}", String::from_utf8_lossy(&out.stdout), String::from_utf8_lossy(&out.stderr));
-        let reported = |w: &str| printed.contains(&format!("“{w}”"));
-        if !reported("wibblet") {
+        // drop the colour escapes
+        let printed = {
+            let mut o = String::new();
+            let mut it = printed.chars();
+            while let Some(ch) = it.next() {
+                if ch == '\u{1b}' {
+                    for d in it.by_ref() {
+                        if d.is_ascii_alphabetic() {
+                            break;
+                        }
+                    }
+                } else {
+                    o.push(ch);
+                }
+            }
+            o
+        };
+        // every spelling lint is printed as one label whose message starts with "Did you mean";
+        // the only unknown word left in the text is the control word
+        let labels = printed.matches("Did you mean").count();
+        if !printed.contains("“wibblet”") {
             return Ok(Err(format!("control failed: harper-cli does not report wibblet: {}", crate::core::truncate(&printed, 300))));
         }
-        for w in ["frobnix", "qwertzu"] {
-            if reported(w) {
-                return Ok(Err(format!(
-                    "{w:?} was added to the {} dictionary through the language server for {}, but `harper-cli lint` on the same path reports it",
-                    if w == "frobnix" { "user" } else { "file" },
-                    opened.display()
-                )));
-            }
+        if labels != 1 {
+            return Ok(Err(format!(
+                "frobnix (user dictionary) and qwertzu (file dictionary) were added through the language server for {}, but `harper-cli lint` on the same path reports {labels} spelling problems instead of the one on wibblet: {}",
+                opened.display(),
+                printed.lines().filter(|l| l.contains("Did you mean") || l.contains("No such file")).map(|l| l.trim().trim_start_matches(['│', '╰', '─', ' ']).to_string()).collect::<Vec<_>>().join(" | ")
+            )));
         }
         Ok(Ok(()))
     })();
